@@ -214,7 +214,48 @@ pub fn run(ctx: &'static Ctx) {
         Some(fexpect),
         "complete: every list over {packed, none, tpm, \"\", Packed} in MakeCredential, GetAssertion and stand-alone",
     );
-    ctx.require_outcomes(&["GetInfo list", "long list"]);
+    // long format lists: unknown names with the known ones at every ordered pair of positions,
+    // and lists long enough to cross 8-bit counters; unknown names up to 300 bytes
+    let fctx2 = contexts("/attestationFormatsPreference", Some("formatsPreference"));
+    let mut flong: Vec<(String, V)> = Vec::new();
+    for n in [12usize, 13, 64] {
+        for i in 0..n {
+            for j in 0..n {
+                if i != j {
+                    let mut items: Vec<V> = (0..n).map(|k| V::t(&format!("fmt{}", k))).collect();
+                    items[i] = V::t("packed");
+                    items[j] = V::t("none");
+                    flong.push((format!("n={} packed@{} none@{}", n, i, j), V::A(items)));
+                }
+            }
+        }
+    }
+    for n in [254usize, 255, 256, 257, 300, 1000] {
+        flong.push((format!("n={} all unknown", n), V::A((0..n).map(|_| V::t("t")).collect())));
+        let mut items: Vec<V> = (0..n).map(|_| V::t("t")).collect();
+        items[n - 1] = V::t("none");
+        flong.push((format!("n={} unknown then none", n), V::A(items)));
+        let mut items: Vec<V> = (0..n).map(|_| V::t("packed")).collect();
+        items[n / 2] = V::t("tpm");
+        flong.push((format!("n={} packed with one tpm", n), V::A(items)));
+    }
+    for len in [31usize, 32, 33, 64, 255, 256, 300] {
+        flong.push((format!("unknown name of {} bytes", len), V::A(vec![V::t("packed"), V::t(&fill_text(len, 7)), V::t("none")])));
+        flong.push((format!("unknown wide name of {} bytes", len), V::A(vec![V::t(&crate::refmodel::fill_wide(len, 2)), V::t("none")])));
+    }
+    let (flr, fcr) = (&flong, &fctx2);
+    sweep(ctx, "long attestation format lists", (flong.len() * fctx2.len()) as u64, "lists of 12, 13, 64 entries with packed / none at every ordered pair of positions among unknown names; lists of 254..=1000 entries; unknown names of 31..=300 bytes", move |idx, l| {
+        let (what, list) = &flr[(idx as usize) / fcr.len()];
+        let c = &fcr[(idx as usize) % fcr.len()];
+        let wire = if c.path.is_empty() { list.clone() } else { treewalk::replaced(&c.wire, &c.path, list.clone()) };
+        l.nontrivial += 1;
+        l.bump("long format list");
+        let v = compare(P, &c.target, &wire);
+        if !v.ok {
+            l.fail(ctx, idx, v, || case_json(&c.target, &wire, json!({"context": c.label, "list": what})));
+        }
+    });
+    ctx.require_outcomes(&["GetInfo list", "long list", "long format list"]);
     ctx.sample(json!({"list": "[unknown x 11, EdDSA, ES256]", "context": "MakeCredential pubKeyCredParams", "oracle": "[-8, -7]"}));
     ctx.sample(json!({"list": "[tpm, none, packed, none]", "context": "GetAssertion attestationFormatsPreference", "oracle": "known = [none, packed], unknown = true"}));
 }
